@@ -7,6 +7,7 @@ import (
 	"time"
 
 	"github.com/feichai0017/NoKV/utils"
+	"github.com/feichai0017/NoKV/utils/verifhook"
 )
 
 // Targets describes the compaction size targets for each level.
@@ -123,6 +124,9 @@ func (cm *Manager) Start(id int, closeCh <-chan struct{}, done func()) {
 }
 
 func (cm *Manager) runCycle(id int, reason string) {
+	if verifhook.Paused("compaction") {
+		return
+	}
 	_ = reason
 	maxRuns := cm.maxRuns
 	ranAny := false
